@@ -955,7 +955,7 @@ def minimise_and_write(seed, idx, finding, hashseed, tier="quick"):
     keep_sens = finding["inv"] == "guid_sensitivity"
     small = case if keep_sens else shrink_case(case, fails)
     doc = {"check": PROP, "seed": seed, "run": idx, "hashseed": hashseed, "case": small, "expect": finding_expect(finding),
-           "note": f"producer hashseed {small['hs_a']}, consumer hashseed {small['hs_b']}, warm={small['warm']}; finding={json.dumps(finding)[:300]}"}
+           "note": f"producer hashseed {small['hs_a']}, consumer hashseed {small.get('hs_b')}, warm={small.get('warm')}; finding={json.dumps(finding)[:300]}"}
     node.close_nodes()
     return engine.write_replay(PROP, doc)
 
